@@ -122,6 +122,12 @@ fn all_coords() -> Vec<Key> {
 }
 
 fn check_config(ctx: &Ctx, rt: &tokio::runtime::Runtime, sname: &str, tiles: &TileMap, o: &Opts, with_conversion: bool, work: &std::path::Path, tag: &str) {
+	check_config_src(ctx, rt, sname, tiles, o, with_conversion, work, tag, None)
+}
+
+/// `open_src`: the source as a real container file (None = an in-memory source holding `tiles`)
+#[allow(clippy::too_many_arguments)]
+fn check_config_src(ctx: &Ctx, rt: &tokio::runtime::Runtime, sname: &str, tiles: &TileMap, o: &Opts, with_conversion: bool, work: &std::path::Path, tag: &str, open_src: Option<&(dyn Fn() -> Option<Box<dyn TilesReaderTrait>> + Sync)>) {
 	let case = json!({"source": sname, "flip_y": o.flip, "swap_xy": o.swap, "zoom": o.zoom.map(|z| json!([z.0, z.1])), "bbox": o.bbox, "border": o.border});
 	let label = format!("{sname}, {o:?}");
 	ctx.eval();
@@ -136,8 +142,17 @@ fn check_config(ctx: &Ctx, rt: &tokio::runtime::Runtime, sname: &str, tiles: &Ti
 	cp.flip_y = o.flip;
 	cp.swap_xy = o.swap;
 	cp.bbox_pyramid = pyramid;
-	let src = MemSource::new("m", tiles.clone(), TileFormat::BIN, TileCompression::Uncompressed);
-	let mut conv = match TilesConvertReader::new_from_reader(Box::new(src), cp) {
+	let src: Box<dyn TilesReaderTrait> = match open_src {
+		Some(f) => match f() {
+			Some(r) => r,
+			None => {
+				ctx.violation("source container cannot be opened", &label, case);
+				return;
+			}
+		},
+		None => Box::new(MemSource::new("m", tiles.clone(), TileFormat::BIN, TileCompression::Uncompressed)),
+	};
+	let mut conv = match TilesConvertReader::new_from_reader(src, cp) {
 		Ok(c) => c,
 		Err(e) => {
 			ctx.violation("converting reader cannot be built", &format!("{label}: {e}"), case);
@@ -475,6 +490,57 @@ fn part_aligned(ctx: &Arc<Ctx>) {
 	ctx.outcome_n("tile-aligned boxes", boxes.len() as u64);
 }
 
+/// Sources that are real container files of every format (written by the repository's writers): an irregular set
+/// (diamond / peninsula shaped levels, zoom gap) in which a third of the tiles share one payload.
+fn part_file_sources(ctx: &Arc<Ctx>, work: &std::path::Path) {
+	let mut tiles = TileMap::new();
+	for (z, pts) in [(1u8, vec![(0u32, 0u32), (1, 1)]), (3, vec![(1, 2), (2, 1), (2, 2), (2, 3), (3, 2), (2, 5), (5, 3), (6, 6)]), (4, vec![(3, 2), (4, 1), (4, 2), (4, 3), (5, 2), (5, 8), (6, 2), (7, 2), (8, 2), (9, 9), (12, 3), (2, 14)])] {
+		for (x, y) in pts {
+			tiles.insert((z, x, y), if (x + 2 * y) % 3 == 0 { b"ocean".to_vec() } else { payload((z, x, y)) });
+		}
+	}
+	let rt0 = crate::memsource::runtime(2);
+	let mut files = vec![];
+	for cont in ct::ALL_CONT {
+		let mut src = MemSource::new("m", tiles.clone(), TileFormat::PNG, TileCompression::Uncompressed);
+		match ct::write(&rt0, cont, &mut src, work, &format!("fsrc_{}", cont.name())) {
+			Ok(w) => files.push((cont, w)),
+			Err(e) => {
+				eprintln!("MACHINERY: cannot write the {} source container: {e}", cont.name());
+				std::process::exit(2);
+			}
+		}
+	}
+	let boxes: Vec<Option<[f64; 4]>> = vec![None, Some([-100.0, -60.0, 120.0, 70.0]), Some([-90.0, -66.51326044311186, 90.0, 66.51326044311186]), Some([-180.0, -85.0, 0.0, 0.0])];
+	let mut cfgs = vec![];
+	for fi in 0..files.len() {
+		for flags in 0..4u8 {
+			for (bi, b) in boxes.iter().enumerate() {
+				for zoom in [None, Some((Some(3u8), Some(4u8)))] {
+					if zoom.is_some() && bi % 2 == 1 {
+						continue;
+					}
+					cfgs.push((fi, Opts { flip: flags & 1 != 0, swap: flags & 2 != 0, zoom, bbox: *b, border: if bi == 1 { Some(1) } else { None } }));
+				}
+			}
+		}
+	}
+	let (ctxr, cr, fr, tr): (&Ctx, _, _, _) = (ctx, &cfgs, &files, &tiles);
+	par_for(cfgs.len(), |i| {
+		let (fi, o) = &cr[i];
+		let (cont, w) = &fr[*fi];
+		let rt = tokio::runtime::Builder::new_multi_thread().worker_threads(1).enable_all().build().unwrap();
+		let open = || ct::open(&tokio::runtime::Builder::new_current_thread().build().unwrap(), *cont, w).ok();
+		check_config_src(ctxr, &rt, &format!("{} file, irregular set with shared payloads", cont.name()), tr, o, i % 3 == 0, work, &format!("fs{i}"), Some(&open));
+		ctxr.transition(1);
+		ctxr.nontrivial(fnv_str(&format!("filesrc{i}")));
+	});
+	for (_, w) in &files {
+		ct::cleanup(w);
+	}
+	ctx.outcome_n("configurations over real container files as sources (5 formats)", cfgs.len() as u64);
+}
+
 /// A source above the sizes at which writers change strategy (21845 tiles: PMTiles leaf directories, several
 /// versatiles blocks per level from z=9 on are C01's) converted with and without flags into three target formats.
 fn part_large(ctx: &Arc<Ctx>, work: &std::path::Path) {
@@ -564,7 +630,7 @@ fn part_large(ctx: &Arc<Ctx>, work: &std::path::Path) {
 pub fn run(ctx: Arc<Ctx>) {
 	ctx.rule(
 		"library: 2 sources (full pyramid z0..3; sparse asymmetric set) whose payloads spell their coordinate x 4 flag combinations x zoom limits {none,(0,0),(1,2),(2,1),(3,9)} x geographic boxes from the C15 lon/lat alphabet (every 9th in quick, all in thorough; incl. points, antimeridian/pole touching) x border {none,0,1,3}; \
-		 TilesConvertReader lookups over every coordinate z<=4, streams over every advertised level, and (for a stride) a full conversion into a versatiles container decoded independently. Boxes with tile-aligned edges (all tile boxes of levels 1..3, border values at levels 4..5; as the library's as_geo_bbox reports them) must select exactly the named tiles at every level. A 21845-tile pyramid converted with and without flags / a box into pmtiles, versatiles and mbtiles. CLI: `versatiles convert` over option combinations and `versatiles serve --flip-y/--swap-xy` mapping vs the conversion's. \
+		 TilesConvertReader lookups over every coordinate z<=4, streams over every advertised level, and (for a stride) a full conversion into a versatiles container decoded independently. Boxes with tile-aligned edges (all tile boxes of levels 1..3, border values at levels 4..5; as the library's as_geo_bbox reports them) must select exactly the named tiles at every level. Sources that are real container files of all five formats holding an irregular set with shared payloads x flags x boxes x zoom limits. A 21845-tile pyramid converted with and without flags / a box into pmtiles, versatiles and mbtiles. CLI: `versatiles convert` over option combinations and `versatiles serve --flip-y/--swap-xy` mapping vs the conversion's. \
 		 oracle: tile at c iff c selected (1e-6 tile don't-care band, border widens per level) and the source has T^-1(c), payload names T^-1(c); lookups, streams and advertised coverage agree. non-trivial = configurations with a flag or a box",
 	);
 	let sets = source_sets();
@@ -631,6 +697,7 @@ pub fn run(ctx: Arc<Ctx>) {
 	ctx.sample(json!({"options": {"flip_y": true, "swap_xy": true, "zoom": [1, 2], "bbox": boxes[boxes.len() / 2], "border": 1}, "source": sets[1].0}));
 	part_aligned(&ctx);
 	part_large(&ctx, &work.0);
+	part_file_sources(&ctx, &work.0);
 	cli_part(&ctx);
 	ctx.exhaustive(ctx.tier == Tier::Thorough);
 	if ctx.tier == Tier::Quick {
